@@ -124,6 +124,25 @@ package tan
 //@ ensures result == nil ==> !gUnsynced
 //@ loop 1 invariant gUnsynced ==> syncLog && selected != nil
 
+// SaveRaftState (one log per shard): each replica's log is written, and -- when the record must be
+// durable -- fsynced by a goroutine the function waits for (fork-join with a WaitGroup). The goroutine
+// must sync the db that was written in ITS iteration: it may capture only per-iteration variables
+// (race obligation of `forkjoin`); with that, success is reported only with nothing left unsynced
+//@ extern sync (wg *WaitGroup) Add
+//@ extern sync (wg *WaitGroup) Done
+//@ extern sync (wg *WaitGroup) Wait
+//@ func panicNow [C04]
+//@ trusted panics (does not return)
+//@ ensures false
+//@ func (l *LogDB) sequentialSaveState [C04 C10]
+//@ noframe
+//@ nobounds
+//@ forkjoin
+//@ requires !gUnsynced
+//@ modifies gUnsynced
+//@ ensures result == nil ==> !gUnsynced
+//@ loop 1 invariant !gUnsynced
+
 // ---------------------------------------------------------------- tan record writer: a storage error is never reported as success (C10)
 //@ func (w *writer) getNext [C10]
 //@ trusted chunk framing inherited from pebble's record writer (not verified)
